@@ -2,6 +2,7 @@ package an
 
 import (
 	"fmt"
+	"go/constant"
 	"go/token"
 	"go/types"
 	"sort"
@@ -188,9 +189,45 @@ func RecCycleRule(w *World, r *Result, rule string) {
 		// blocks reachable from the entry before anything is consumed, with what is known about
 		// the current token on the way
 		seen := map[string]bool{}
-		var walk func(blk *ssa.BasicBlock, t tokc)
-		walk = func(blk *ssa.BasicBlock, t tokc) {
-			sk := fmt.Sprintf("%d|%s", blk.Index, render(t))
+		var walk func(prev, blk *ssa.BasicBlock, t tokc, flags map[*ssa.Phi]bool)
+		walk = func(prev, blk *ssa.BasicBlock, t tokc, flags map[*ssa.Phi]bool) {
+			// boolean flags merged here take the value of the way that was come
+			if prev != nil {
+				pi := -1
+				for i, p := range blk.Preds {
+					if p == prev {
+						pi = i
+					}
+				}
+				var nf map[*ssa.Phi]bool
+				for _, ins := range blk.Instrs {
+					ph, ok := ins.(*ssa.Phi)
+					if !ok {
+						break
+					}
+					if nf == nil {
+						nf = map[*ssa.Phi]bool{}
+						for k, v := range flags {
+							nf[k] = v
+						}
+					}
+					delete(nf, ph)
+					if pi >= 0 && pi < len(ph.Edges) {
+						if kc, ok := ph.Edges[pi].(*ssa.Const); ok && kc.Value != nil && kc.Value.Kind() == constant.Bool {
+							nf[ph] = constant.BoolVal(kc.Value)
+						}
+					}
+				}
+				if nf != nil {
+					flags = nf
+				}
+			}
+			var fk []string
+			for ph, v := range flags {
+				fk = append(fk, fmt.Sprintf("%s=%v", ph.Name(), v))
+			}
+			sort.Strings(fk)
+			sk := fmt.Sprintf("%d|%s|%s", blk.Index, render(t), strings.Join(fk, ","))
 			if seen[sk] || len(seen) > 4000 {
 				return
 			}
@@ -246,18 +283,31 @@ func RecCycleRule(w *World, r *Result, rule string) {
 						for si, sc := range blk.Succs {
 							eq := (si == 0) == (bo.Op == token.EQL)
 							if nt, feasible := refine(t, kv, eq); feasible {
-								walk(sc, nt)
+								walk(blk, sc, nt, flags)
 							}
 						}
 						return
 					}
 				}
+				// branch on a flag whose value is known on this way
+				if c, neg := condOf(blk); c != nil {
+					if ph, ok := c.(*ssa.Phi); ok {
+						if v, known := flags[ph]; known && blk.Succs[0] != blk.Succs[1] {
+							if v != neg {
+								walk(blk, blk.Succs[0], t, flags)
+							} else {
+								walk(blk, blk.Succs[1], t, flags)
+							}
+							return
+						}
+					}
+				}
 			}
 			for _, sc := range blk.Succs {
-				walk(sc, t)
+				walk(blk, sc, t, flags)
 			}
 		}
-		walk(fn.Blocks[0], t0)
+		walk(nil, fn.Blocks[0], t0, map[*ssa.Phi]bool{})
 		return k
 	}
 	for _, fn := range w.Funcs("parser") {
